@@ -301,12 +301,9 @@ func wideTransfersProfile(tier Tier, oracles []explore.Oracle) *explore.Profile 
 		append([]byte{0}, tenE18.Bytes()...), new(big.Int).Sub(two63, big.NewInt(1)).Bytes(), new(big.Int).Lsh(big.NewInt(1), 32).Bytes()}
 	counts := []int{255, 256, 257, 300}
 	if tier.Thorough() {
-		counts = append(counts, 511, 512, 513, 65536)
+		counts = append(counts, 511, 512, 513, 4096)
 	}
 	depth := 2
-	if tier.Thorough() {
-		depth = 3
-	}
 	call := uni.Call
 	return &explore.Profile{
 		Name: "wide-transfers", EnvCfg: ledgerEnv(2), Depth: depth, Deadline: tierDeadline(tier), Oracles: oracles,
